@@ -279,6 +279,11 @@ class Pass1(CompilePass):
                 if letter in self.compilation.def_letter_types:
                     letter = decl.name[0].lower()
                     param_type = self.compilation.def_letter_types[letter]
+            if any(decl.name == pname for pname, _ in params):
+                raise CompileError(
+                    EC.DUPLICATE_DEFINITION,
+                    f'Duplicate parameter: {decl.name}',
+                    node=decl)
             params.append((decl.name, param_type))
 
         routine = Routine(node.name, 'sub', self.compilation, params,
@@ -310,6 +315,11 @@ class Pass1(CompilePass):
                 if letter in self.compilation.def_letter_types:
                     letter = decl.name[0].lower()
                     param_type = self.compilation.def_letter_types[letter]
+            if any(decl.name == pname for pname, _ in params):
+                raise CompileError(
+                    EC.DUPLICATE_DEFINITION,
+                    f'Duplicate parameter: {decl.name}',
+                    node=decl)
             params.append((decl.name, param_type))
 
         routine = Routine(node.name, 'function', self.compilation,
